@@ -1056,6 +1056,10 @@ class Engine:
         if isinstance(target, ast.Name):
             if self.c.types.get(target.id) == 'bv64' and isinstance(v, (int, bool)):
                 v = to_z3(v, 'bv64')  # a local declared as a machine-width integer
+            if isinstance(v, SRecord) and v.cls == 'dict' and not v.fields and target.id in self.c.types:
+                t = parse_type(self.c.types[target.id])
+                if isinstance(t, tuple) and t[0] == 'map':  # `{}` bound to a name declared as a finite map
+                    v = SMap(z3.K(sort_of(t[1]), z3.BoolVal(False)), z3.Const(fresh_name(target.id + '.val0'), z3.ArraySort(sort_of(t[1]), sort_of(t[2]))), z3.IntVal(0), t[1], t[2])
             if isinstance(v, SList) and v.et is None and target.id in self.c.types:
                 t = parse_type(self.c.types[target.id])
                 if isinstance(t, tuple) and t[0] == 'list':
@@ -1509,6 +1513,8 @@ class Engine:
         ta = type_of_value(a)
         tb = type_of_value(b)
         t = ta if ta == tb else ('real' if {ta, tb} <= {'int', 'real'} else ('int' if {ta, tb} <= {'int', 'bool'} else None))
+        if t is None and 'U' in (ta, tb) and (isinstance(a, (str, SDotted)) or a is None or isinstance(b, (str, SDotted)) or b is None):
+            t = 'U'  # an opaque value or a string literal / None / enum member (interned constants of the opaque sort)
         if t is None:
             raise Undecided('conditional expression with branches of different types')
         return from_z3(z3.If(c, to_z3(a, t), to_z3(b, t)), t)
@@ -2130,8 +2136,9 @@ class Engine:
     def call_localdef(self, fn, node, st):
         """call of a nested `def`: its real body is executed in a child state that sees the enclosing variables; every outcome
         comes back as a Fork alternative.  Nested functions that rebind enclosing variables (nonlocal) are outside the subset."""
-        if isinstance(fn, ast.AsyncFunctionDef) or any(isinstance(n, (ast.Nonlocal, ast.Global, ast.Yield, ast.YieldFrom)) for n in ast.walk(fn)):
-            raise Undecided('nested function %s uses nonlocal/global/yield or is a coroutine' % fn.name)
+        if isinstance(fn, ast.AsyncFunctionDef) or any(isinstance(n, (ast.Global, ast.Yield, ast.YieldFrom)) for n in ast.walk(fn)):
+            raise Undecided('nested function %s uses global/yield or is a coroutine' % fn.name)
+        nonlocals = {nm for n in ast.walk(fn) if isinstance(n, ast.Nonlocal) for nm in n.names}
         a = fn.args
         if a.vararg or a.kwarg or a.kwonlyargs:
             raise Undecided('nested function %s with *args/**kwargs' % fn.name)
@@ -2157,18 +2164,32 @@ class Engine:
             outs = self.exec_block(fn.body, child)
         finally:
             self._ld_depth = depth
+        # variables of the enclosing scope the nested function can change: those it declares nonlocal, and containers it
+        # mutates in place (the executor rebinds the name on append/extend/...); its own parameters and locals stay private
+        stored = {n.id for stmt in fn.body for n in ast.walk(stmt) if isinstance(n, ast.Name) and isinstance(n.ctx, (ast.Store, ast.Del))}
+        own = set(names) | (stored - nonlocals)
+        shared_names = [n_ for n_ in st.env if n_ not in own]
+
+        def writeback(sub):
+            def apply(caller):
+                for n_ in shared_names:
+                    if n_ in sub.env and sub.env[n_] is not caller.env.get(n_):
+                        caller.env[n_] = sub.env[n_]
+            return apply
+
         base = len(st.pc)
         alts = []
         for i, (s2, oc) in enumerate(outs):
             extra = list(s2.pc[base:])
             cond = z3.And(*extra) if extra else None
             if oc[0] == 'raise':
-                alts.append(('%s-raises%d' % (fn.name, i), cond, 'raise', oc[1], None))
+                alts.append(('%s-raises%d' % (fn.name, i), cond, 'raise', oc[1], writeback(s2)))
             elif oc[0] in ('return', 'next'):
-                alts.append(('%s-returns%d' % (fn.name, i), cond, 'value', oc[1] if oc[0] == 'return' else None, None))
+                alts.append(('%s-returns%d' % (fn.name, i), cond, 'value', oc[1] if oc[0] == 'return' else None, writeback(s2)))
             else:
                 raise Undecided('%s escaping nested function %s' % (oc[0], fn.name))
         if len(alts) == 1 and alts[0][1] is None:
+            alts[0][4](st)
             if alts[0][2] == 'raise':
                 raise PyRaise(alts[0][3])
             return alts[0][3]
